@@ -134,6 +134,17 @@ def report(s, name):
             return ("tree", parse_tree(tree_text(s)))
         if name == "save":
             return ("save", json.dumps(norm_save(save_doc(s)[0]), sort_keys=True))
+        if name == "diag":
+            from sysloss.diagram import make_diag
+            from .dotparse import parse
+            d = os.path.join(VERIF, ".work", "rep-%d" % os.getpid())
+            os.makedirs(d, exist_ok=True)
+            path = os.path.join(d, "g.raw")
+            quiet_call(make_diag, s, fname=path)
+            with open(path) as f:
+                gph = parse(f.read())
+            return ("diag", tuple(sorted(gph["nodes"])), tuple(sorted((a, b) for a, b, _ in gph["edges"])),
+                    tuple(sorted((n, c or "") for n, (c, _) in gph["nodes"].items())), tuple(gph["errors"]))
     except Exception as e:
         return ("EXC", type(e).__name__, str(e)[:120])
     raise KeyError(name)
